@@ -1,6 +1,7 @@
 import PoxModel.Base.Proto
 import PoxModel.Model.Checksum
 import PoxModel.Model.PacketHdr
+import PoxModel.Model.PacketExt
 open Pox Pox.Proto Pox.Checksum Pox.Packet
 
 /-! Line-protocol driver for C14.
@@ -125,6 +126,243 @@ def parsedAndRepack (k : Kind) (raw : Bytes) : Except String (List (String × J)
     | .ok b => pure [("parsed", J.arr (chainJ q)), ("repack", J.ofBytes b)]
     | .error e => pure [("parsed", J.arr (chainJ q)), ("repack_exc", J.str e.toString)]
 
+
+/-! ## the extended chains (`Model/PacketExt.lean`) -/
+
+def optBytesJ : Option Bytes → J
+  | some b => J.ofBytes b
+  | none => J.null
+
+def optBytesOf (j : J) (k : String) : Except String (Option Bytes) :=
+  match j.get? k with
+  | none => pure none
+  | some J.null => pure none
+  | some v => do pure (some (← v.asBytes))
+
+def tlvJ : Tlv → J
+  | .end_ => J.mk [("t", J.ofNat 0)]
+  | .chassis st id => J.mk [("t", J.ofNat 1), ("subtype", J.ofNat st), ("id", J.ofBytes id)]
+  | .port st id => J.mk [("t", J.ofNat 2), ("subtype", J.ofNat st), ("id", J.ofBytes id)]
+  | .ttl v => J.mk [("t", J.ofNat 3), ("ttl", J.ofNat v)]
+  | .caps c e => J.mk [("t", J.ofNat 7), ("caps", J.ofNat c), ("en", J.ofNat e)]
+  | .mgmt ast addr ins ifn oid => J.mk [("t", J.ofNat 8), ("ast", J.ofNat ast), ("addr", J.ofBytes addr), ("ins", J.ofNat ins),
+      ("ifn", J.ofNat ifn), ("oid", J.ofBytes oid)]
+  | .org oui st d => J.mk [("t", J.ofNat 127), ("oui", J.ofBytes oui), ("subtype", J.ofNat st), ("payload", J.ofBytes d)]
+  | .payload t d => J.mk [("t", J.ofNat t), ("payload", J.ofBytes d)]
+
+def tlvOfJ (j : J) : Except String Tlv := do
+  let t ← j.nat "t"
+  if t = 0 then pure .end_
+  else if t = 1 then pure (.chassis (← j.nat "subtype") (← j.bytes "id"))
+  else if t = 2 then pure (.port (← j.nat "subtype") (← j.bytes "id"))
+  else if t = 3 then pure (.ttl (← j.nat "ttl"))
+  else if t = 7 then pure (.caps (← j.nat "caps") (← j.nat "en"))
+  else if t = 8 then pure (.mgmt (← j.nat "ast") (← j.bytes "addr") (← j.nat "ins") (← j.nat "ifn") (← j.bytes "oid"))
+  else if t = 127 then pure (.org (← j.bytes "oui") (← j.nat "subtype") (← j.bytes "payload"))
+  else pure (.payload t (← j.bytes "payload"))
+
+def greCsumJ : GreCsum → J
+  | .absent => J.null
+  | .compute => J.bool true
+  | .val n => J.ofNat n
+
+def groupJ (g : GroupRec) : J :=
+  J.mk [("type", J.ofNat g.type), ("addr", J.ofNat g.addr), ("srcs", J.ofNats g.srcs), ("aux", J.ofBytes g.aux)]
+
+def ripEntryJ (e : RipEntry) : J :=
+  J.mk [("af", J.ofNat e.af), ("tag", J.ofNat e.tag), ("ip", J.ofNat e.ip), ("mask", J.ofNat e.mask), ("nh", J.ofNat e.nh),
+        ("metric", J.num e.metric)]
+
+def noneJ : J := J.mk [("k", J.str "none")]
+
+def xchainJ : XPkt → List J
+  | .raw b => [J.mk [("k", J.str "bytes"), ("data", J.ofBytes b)]]
+  | .nil => [noneJ]
+  | .unparsed c r => [J.mk [("k", J.str "unparsed"), ("cls", J.str c), ("raw", J.ofBytes r)]]
+  | .unmodelled c r => [J.mk [("k", J.str "unmodelled"), ("cls", J.str c), ("raw", J.ofBytes r)]]
+  | .eth h n => (chainJ (.eth h .nil)).take 1 ++ xchainJ n
+  | .vlan h n => (chainJ (.vlan h .nil)).take 1 ++ xchainJ n
+  | .arp h n => (chainJ (.arp h .nil)).take 1 ++ xchainJ n
+  | .ipv4 h n => (chainJ (.ipv4 h .nil)).take 1 ++ xchainJ n
+  | .udp h n => (chainJ (.udp h .nil)).take 1 ++ xchainJ n
+  | .tcp h n => (chainJ (.tcp h .nil)).take 1 ++ xchainJ n
+  | .icmp h n => (chainJ (.icmp h .nil)).take 1 ++ xchainJ n
+  | .echo h n => (chainJ (.echo h .nil)).take 1 ++ xchainJ n
+  | .unreach h n => (chainJ (.unreach h .nil)).take 1 ++ xchainJ n
+  | .timeEx h n => (chainJ (.timeEx h .nil)).take 1 ++ xchainJ n
+  | .llc h n => J.mk [("k", J.str "llc"), ("dsap", J.ofNat h.dsap), ("ssap", J.ofNat h.ssap), ("control", J.ofNat h.control),
+      ("length", J.ofNat h.length), ("oui", optBytesJ h.oui),
+      ("eth_type", if h.oui.isSome then J.ofNat h.ethType else J.null)] :: xchainJ n
+  | .mpls h n => J.mk [("k", J.str "mpls"), ("label", J.ofNat h.label), ("tc", J.ofNat h.tc), ("s", J.ofNat h.s),
+      ("ttl", J.ofNat h.ttl)] :: xchainJ n
+  | .lldp tlvs => [J.mk [("k", J.str "lldp"), ("tlvs", J.arr (tlvs.map tlvJ))], noneJ]
+  | .eapol h n => J.mk [("k", J.str "eapol"), ("version", J.ofNat h.version), ("type", J.ofNat h.type),
+      ("bodylen", J.ofNat h.bodylen)] :: xchainJ n
+  | .eap h n => J.mk [("k", J.str "eap"), ("code", J.ofNat h.code), ("id", J.ofNat h.id), ("length", J.ofNat h.length)]
+      :: xchainJ n
+  | .ipv6 h n => J.mk [("k", J.str "ipv6"), ("v", J.ofNat h.v), ("tc", J.ofNat h.tc), ("flow", J.ofNat h.flow),
+      ("payload_length", J.ofNat h.plen), ("nh", J.ofNat h.nh), ("hop_limit", J.ofNat h.hop), ("srcip", J.ofBytes h.src),
+      ("dstip", J.ofBytes h.dst), ("ext", J.arr [])] :: xchainJ n
+  | .icmp6 h n => J.mk [("k", J.str "icmpv6"), ("type", J.ofNat h.type), ("code", J.ofNat h.code), ("csum", J.ofNat h.csum)]
+      :: xchainJ n
+  | .echo6 h n => J.mk [("k", J.str "echo6"), ("id", J.ofNat h.id), ("seq", J.ofNat h.seq)] :: xchainJ n
+  | .gre h n => J.mk [("k", J.str "gre"), ("type", J.ofNat h.type), ("ver", J.ofNat h.ver), ("key", J.ofOptNat h.key),
+      ("seq", J.ofOptNat h.seq), ("csum", greCsumJ h.csum), ("route_offset", J.ofNat h.routeOffset), ("ssr", J.bool h.ssr),
+      ("recursion", J.ofNat h.recursion)] :: xchainJ n
+  | .vxlan h n => J.mk [("k", J.str "vxlan"), ("vni", J.ofOptNat h.vni)] :: xchainJ n
+  | .igmp h =>
+    [if h.vt = 0x22 then
+       J.mk [("k", J.str "igmp"), ("vt", J.ofNat h.vt), ("csum", J.ofNat h.csum), ("extra", J.ofBytes h.extra),
+             ("groups", J.arr (h.groups.map groupJ))]
+     else
+       J.mk [("k", J.str "igmp"), ("vt", J.ofNat h.vt), ("mrt", J.ofNat h.mrt), ("csum", J.ofNat h.csum),
+             ("addr", J.ofOptNat h.addr), ("extra", J.ofBytes h.extra)], noneJ]
+  | .rip h => [J.mk [("k", J.str "rip"), ("command", J.ofNat h.command), ("version", J.ofNat h.version),
+      ("entries", J.arr (h.entries.map ripEntryJ))], noneJ]
+
+def embed : Pkt → XPkt
+  | .raw b => .raw b
+  | .nil => .nil
+  | .unparsed c r => .unparsed c r
+  | .unmodelled c r => .unmodelled c r
+  | .eth h n => .eth h (embed n)
+  | .vlan h n => .vlan h (embed n)
+  | .arp h n => .arp h (embed n)
+  | .ipv4 h n => .ipv4 h (embed n)
+  | .udp h n => .udp h (embed n)
+  | .tcp h n => .tcp h (embed n)
+  | .icmp h n => .icmp h (embed n)
+  | .echo h n => .echo h (embed n)
+  | .unreach h n => .unreach h (embed n)
+  | .timeEx h n => .timeEx h (embed n)
+
+def natOr (j : J) (k : String) (d : Nat) : Except String Nat :=
+  match j.get? k with
+  | none => pure d
+  | some J.null => pure d
+  | some v => v.asNat
+
+def ofChainX : List J → Except String XPkt
+  | [] => throw "empty chain (a terminal layer is required)"
+  | j :: rest => do
+    let k ← j.string "k"
+    if k = "bytes" then
+      if rest.isEmpty then pure (.raw (← j.bytes "data")) else throw "bytes must be last"
+    else if k = "none" then
+      if rest.isEmpty then pure .nil else throw "none must be last"
+    else if k = "lldp" then
+      if rest.length ≤ 1 then pure (.lldp (← (← j.array "tlvs").mapM tlvOfJ)) else throw "lldp carries no payload"
+    else if k = "igmp" then
+      if rest.length ≤ 1 then do
+        let vt ← j.nat "vt"
+        let gs ← match j.get? "groups" with
+          | some (J.arr a) => a.mapM fun g => do
+              pure (⟨← g.nat "type", ← g.nat "addr", ← g.nats "srcs", ← g.bytes "aux"⟩ : GroupRec)
+          | _ => pure []
+        pure (.igmp ⟨vt, ← natOr j "mrt" 0, ← natOr j "csum" 0, ← j.optNat "addr", gs, ← j.bytes "extra"⟩)
+      else throw "igmp carries no payload"
+    else if k = "rip" then
+      if rest.length ≤ 1 then do
+        let es ← (← j.array "entries").mapM fun e => do
+          pure (⟨← e.nat "af", ← e.nat "tag", ← e.nat "ip", ← e.nat "mask", ← e.nat "nh", ← e.int "metric"⟩ : RipEntry)
+        pure (.rip ⟨← j.nat "command", ← j.nat "version", es⟩)
+      else throw "rip carries no payload"
+    else
+      let n ← ofChainX rest
+      if k = "llc" then
+        pure (.llc ⟨← j.nat "length", ← j.nat "dsap", ← j.nat "ssap", ← j.nat "control", ← optBytesOf j "oui",
+                    ← natOr j "eth_type" 0xffff⟩ n)
+      else if k = "mpls" then pure (.mpls ⟨← j.nat "label", ← j.nat "tc", ← j.nat "s", ← j.nat "ttl"⟩ n)
+      else if k = "eapol" then pure (.eapol ⟨← j.nat "version", ← j.nat "type", ← j.nat "bodylen"⟩ n)
+      else if k = "eap" then pure (.eap ⟨← j.nat "code", ← j.nat "id", ← j.nat "length"⟩ n)
+      else if k = "ipv6" then
+        pure (.ipv6 ⟨← natOr j "v" 6, ← j.nat "tc", ← j.nat "flow", ← natOr j "payload_length" 0, ← j.nat "nh",
+                     ← j.nat "hop_limit", ← j.bytes "srcip", ← j.bytes "dstip"⟩ n)
+      else if k = "icmpv6" then pure (.icmp6 ⟨← j.nat "type", ← j.nat "code", ← natOr j "csum" 0⟩ n)
+      else if k = "echo6" then pure (.echo6 ⟨← j.nat "id", ← j.nat "seq"⟩ n)
+      else if k = "gre" then do
+        let cs ← match j.get? "csum" with
+          | some (J.bool true) => pure GreCsum.compute
+          | some (J.num v) => pure (GreCsum.val v.toNat)
+          | _ => pure GreCsum.absent
+        pure (.gre ⟨← j.nat "type", ← natOr j "ver" 0, ← j.boolean "ssr", ← natOr j "recursion" 0,
+                    ← natOr j "route_offset" 0, ← j.optNat "key", ← j.optNat "seq", cs⟩ n)
+      else if k = "vxlan" then pure (.vxlan ⟨← j.optNat "vni"⟩ n)
+      else
+        -- one of the ten original classes: decode the single layer with the original decoder
+        match ← ofChain [j, J.mk [("k", J.str "none")]] with
+        | .eth h _ => pure (.eth h n)
+        | .vlan h _ => pure (.vlan h n)
+        | .arp h _ => pure (.arp h n)
+        | .ipv4 h _ => pure (.ipv4 h n)
+        | .udp h _ => pure (.udp h n)
+        | .tcp h _ => pure (.tcp h n)
+        | .icmp h _ => pure (.icmp h n)
+        | .echo h _ => pure (.echo h n)
+        | .unreach h _ => pure (.unreach h n)
+        | .timeEx h _ => pure (.timeEx h n)
+        | _ => throw s!"layer kind {k} is not modelled"
+
+def xkindOf (s : String) : Except String XKind :=
+  if s = "llc" then pure .llc else if s = "mpls" then pure .mpls else if s = "lldp" then pure .lldp
+  else if s = "eapol" then pure .eapol else if s = "ipv6" then pure .ipv6 else if s = "gre" then pure .gre
+  else if s = "vxlan" then pure .vxlan else if s = "igmp" then pure .igmp else if s = "rip" then pure .rip
+  else do pure (.core (← kindOf s))
+
+def hasUnmodelledX : XPkt → Option String
+  | .unmodelled c _ => some c
+  | .eth _ n | .vlan _ n | .arp _ n | .ipv4 _ n | .udp _ n | .tcp _ n | .icmp _ n | .echo _ n | .unreach _ n
+  | .timeEx _ n | .llc _ n | .mpls _ n | .eapol _ n | .eap _ n | .ipv6 _ n | .icmp6 _ n | .echo6 _ n | .gre _ n
+  | .vxlan _ n => hasUnmodelledX n
+  | _ => none
+
+def toCore : XPkt → Option Pkt
+  | .raw b => some (.raw b)
+  | .nil => some .nil
+  | .eth h n => (toCore n).map (.eth h)
+  | .vlan h n => (toCore n).map (.vlan h)
+  | .arp h n => (toCore n).map (.arp h)
+  | .ipv4 h n => (toCore n).map (.ipv4 h)
+  | .udp h n => (toCore n).map (.udp h)
+  | .tcp h n => (toCore n).map (.tcp h)
+  | .icmp h n => (toCore n).map (.icmp h)
+  | .echo h n => (toCore n).map (.echo h)
+  | .unreach h n => (toCore n).map (.unreach h)
+  | .timeEx h n => (toCore n).map (.timeEx h)
+  | _ => none
+
+def xparsedAndRepack (k : XKind) (raw : Bytes) : Except String (List (String × J)) := do
+  let q := xparseTop k raw
+  match hasUnmodelledX q with
+  | some c => throw s!"unmodelled:{c}"
+  | none =>
+    match xpack none q with
+    | .ok b => pure [("parsed", J.arr (xchainJ q)), ("repack", J.ofBytes b)]
+    | .error (.unmodelled c) => throw s!"unmodelled:{c}"
+    | .error e => pure [("parsed", J.arr (xchainJ q)), ("repack_exc", J.str e.toString)]
+
+/-- the answer of the extended model; for chains of the ten original classes it must coincide with the original model
+(`packU`/`parseTop`), otherwise the request is answered with an error (= a correspondence failure) -/
+def xstack (top : String) (layers : List J) : Except String J := do
+  let k ← xkindOf top
+  let p ← ofChainX layers
+  match xpackU none p with
+  | .error (.unmodelled c) => throw s!"unmodelled:{c}"
+  | .error e => pure (J.mk [("exc", J.str e.toString)])
+  | .ok (p', bs) =>
+    let rest ← xparsedAndRepack k bs
+    let ans := J.mk ([("pack", J.ofBytes bs), ("built", J.arr (xchainJ p'))] ++ rest)
+    match toCore p, k with
+    | some c, .core ck =>
+      match packU none c with
+      | .ok (c', cbs) =>
+        let q := parseTop ck cbs
+        if cbs = bs ∧ (J.arr (chainJ c')).render = (J.arr (xchainJ p')).render
+            ∧ (hasUnmodelled q).isSome = false ∧ (J.arr (chainJ q)).render = (J.arr (xchainJ (xparseTop k bs))).render
+        then pure ans else throw "original and extended model disagree"
+      | .error _ => throw "original and extended model disagree (pack)"
+    | _, _ => pure ans
+
 def handle (j : J) : Except String J := do
   let op ← j.string "op"
   if op = "cksum" then
@@ -136,14 +374,7 @@ def handle (j : J) : Except String J := do
       | none => d
     pure (J.mk [("code", J.ofNat (checksum d start skip)), ("spec", J.ofNat (rfc1071 z))])
   else if op = "stack" then
-    let k ← kindOf (← j.string "top")
-    let p ← ofChain (← j.array "layers")
-    match packU none p with
-    | .error (.unmodelled c) => throw s!"unmodelled:{c}"
-    | .error e => pure (J.mk [("exc", J.str e.toString)])
-    | .ok (p', bs) =>
-      let rest ← parsedAndRepack k bs
-      pure (J.mk ([("pack", J.ofBytes bs), ("built", J.arr (chainJ p'))] ++ rest))
+    xstack (← j.string "top") (← j.array "layers")
   else if op = "mutparse" then
     -- pack with the model, damage the bytes ("trunc" n | "set" i v), parse the result: the malformed-input stream
     let k ← kindOf (← j.string "top")
